@@ -175,6 +175,13 @@ def _program(draw):
         start_of["I" + base] = 1
         if draw(st.booleans()):
             products.append({"terms": ["I" + base, "A"], "hermitian": False})
+        if draw(st.booleans()):
+            # ... and its adjoint 1 + X^dagger, with the Hermitian product (1 + X^dagger)(1 + X) - the U^dagger U pattern,
+            # in which one factor of a term of the half-sum is the identity sentinel
+            series.append({"name": "I" + base + "d", "start": 1, "marker": None, "clauses": [[None, ["ref", base, True]]]})
+            rank["I" + base + "d"] = 99
+            start_of["I" + base + "d"] = 1
+            products.append({"terms": ["I" + base + "d", "I" + base], "hermitian": True})
     candidates = [s["name"] for s in series]
     outputs = sorted(draw(st.sets(st.sampled_from(candidates), min_size=1, max_size=3)))
     return {"inputs": inputs, "series": series, "products": products, "outputs": outputs}
